@@ -77,6 +77,20 @@ class Gates:
     def __init__(self):
         self.ctl = None
 
+    def make_repr(self, n):
+        """a callable spec whose repr() is a yield point: rendering an error trace that shows it can be interleaved"""
+        outer = self
+
+        class ReprGate:
+            def __call__(self, t):
+                return t
+
+            def __repr__(self):
+                if outer.ctl is not None:
+                    outer.ctl.point()
+                return 'ReprGate(%d)' % n
+        return ReprGate()
+
     def make(self, n):
         def gate(t):
             if self.ctl is not None:
@@ -118,6 +132,8 @@ def build_with_gates(ir, r, gates):
     def fn_of(desc):
         if desc[0] == 'gate':
             return gates.make(desc[1])
+        if desc[0] == 'reprgate':
+            return gates.make_repr(desc[1])
         return orig(desc)
     pyval.fn_of = fn_of
     pyspec.fn_of = fn_of
@@ -333,6 +349,10 @@ def gen_shared(rng, k):
                       ['List', [first, second]],
                       ['Dict', False, [[['Str', 'a'], ['List', [first]]], [['Str', 'b'], ['T', 'T', [['[', ['Str', 'who']]]]]]]])
     spec = ['Tuple', [['Bind', [['info', lit]]], ['T', 'S', [['.', ['Str', 'info']]]]]]
+    if rng.random() < 0.4:
+        # every call fails, and the spec it fails in shows an object whose repr() is a yield point: the error traces are
+        # rendered while the other calls render theirs (of the same spec object)
+        spec = ['Tuple', [['Fn', ['reprgate', 1]], ['Fn', ['gate', 1]], ['Str', 'zz__missing'], ['Fn', ['reprgate', 2]]]]
     calls = [{'target': {'k': 'dict', 'od': False, 'id': 900, 'items': [['who', 'caller-%d' % i], ['t', t]]}, 'spec': spec} for i in range(k)]
     return {'kind': 'calls', 'shared_spec': True, 'calls': calls,
             'schedule': [rng.randint(0, k - 1) for _ in range(rng.randint(0, 3 * k + 2))]}
